@@ -167,7 +167,8 @@ func fetchPkgEnums(pa *packages.Package) enumsMap {
 		if !isConst {
 			continue
 		}
-		named, isNamed := decl.Type().(*types.Named)
+		// the constant may be typed through an alias of the enum type
+		named, isNamed := types.Unalias(decl.Type()).(*types.Named)
 		if !isNamed {
 			continue
 		}
